@@ -269,7 +269,7 @@ theorem {E}_roundtrip (b : List UInt8) (hb : b.length = {NB}) ({sp('z')} : Nat) 
   rw [e]; subst {sp('e')}; rfl
 
 /-- **C08_gen** `{E}.PutElement ({E}.Element b) = b` whenever `b` is accepted (into any target array) -/
-theorem {E}_roundtrip' (b t : List UInt8) (hb : b.length = {NB}) (ht : t.length = {NB}) (h : {dec} b < P.q) :
+theorem {E}_roundtrip_inv (b t : List UInt8) (hb : b.length = {NB}) (ht : t.length = {NB}) (h : {dec} b < P.q) :
     {G}.{E}_PutElement t {" ".join(proj(f'({G}.{E}_Element b)', i, n + 1) for i in I)} = b := by
   obtain ⟨{cm('m')}, g, hm, e⟩ := {E}_Element_accept b hb h
   rw [e]
@@ -448,7 +448,7 @@ end GV.C08gen.{f}
     names = ["toMont_spec", "rSquare_val", "q_le", "words_BE_spec", "words_LE_spec"]
     for E in ("bigEndian", "littleEndian"):
         names += [f"{E}_Element_reject", f"{E}_Element_accept", f"{E}_Element_err_iff", f"{E}_Element_model", f"{E}_PutElement_spec",
-                  f"{E}_roundtrip", f"{E}_roundtrip'"]
+                  f"{E}_roundtrip", f"{E}_roundtrip_inv"]
     names += ["Bytes_spec", "SetBytesCanonical_eq", "SetBytesCanonical_spec", "SetBytesCanonical_model", "SetBytes_spec", "SetBytes_lenient",
               "Bits_spec", "Uint64_spec", "FitsOnOneWord_spec", "IsUint64_spec", "SetUint64_spec"]
     return T, names
@@ -619,7 +619,7 @@ theorem {E}_roundtrip (b : List UInt8) (hb : b.length = {NB}) (z : Nat) (hz : z 
   rw [e, hm]
 
 /-- **C08_gen** `{E}.PutElement ({E}.Element b) = b` whenever `b` is accepted -/
-theorem {E}_roundtrip' (b t : List UInt8) (hb : b.length = {NB}) (ht : t.length = {NB}) (h : {dec} b < P.q) :
+theorem {E}_roundtrip_inv (b t : List UInt8) (hb : b.length = {NB}) (ht : t.length = {NB}) (h : {dec} b < P.q) :
     {G}.{E}_PutElement t ({G}.{E}_Element b).1 = b := by
   obtain ⟨m, g, hm, e⟩ := {fn}_accept b hb h
   rw [e]
@@ -773,7 +773,7 @@ end GV.C08gen.{f}
     names = ["toMont_spec", "q_le", "words_BE_spec", "words_LE_spec"]
     for E in ("bigEndian", "littleEndian"):
         names += [f"{E}_Element_reject", f"{E}_Element_accept", f"{E}_Element_err_iff", f"{E}_Element_model", f"{E}_PutElement_spec",
-                  f"{E}_roundtrip", f"{E}_roundtrip'"]
+                  f"{E}_roundtrip", f"{E}_roundtrip_inv"]
     names += ["Bytes_spec", "SetBytesCanonical_eq", "SetBytesCanonical_spec", "SetBytesCanonical_model", "SetBytes_spec", "SetBytes_lenient",
               "Bits_spec", "Uint64_spec", "IsUint64_spec", "SetUint64_spec"]
     return T, names
@@ -845,7 +845,7 @@ Per field (namespace GV.C08gen.<field>), for ALL byte arrays / slices and ALL ca
 * `bigEndian_PutElement_spec`, `littleEndian_PutElement_spec`: the bytes written are `Conv.toBytesBE/LE Bytes (fromMont (val z))`;
 * `bigEndian_Element_reject / _accept / _err_iff / _model` (and littleEndian): error IFF value >= q, otherwise the canonical Montgomery
   element of the value; the hand model `Conv.elementBE/LE` is the generated decoder followed by `fromMont`;
-* `bigEndian_roundtrip`, `bigEndian_roundtrip'` (and littleEndian): Element (PutElement z) = (z, nil); PutElement (Element b) = b when accepted;
+* `bigEndian_roundtrip`, `bigEndian_roundtrip_inv` (and littleEndian): Element (PutElement z) = (z, nil); PutElement (Element b) = b when accepted;
 * `Bytes_spec`, `SetBytesCanonical_eq / _spec / _model`, `SetBytes_spec` (fast path on canonical Bytes-long input, the PARAMETER
   `setBigIntBE e` on every other input), `SetBytes_lenient` (with the parameter specified as be(e) mod q: = `Conv.setBytes`);
 * `Bits_spec`, `Uint64_spec`, `FitsOnOneWord_spec`, `IsUint64_spec`, `SetUint64_spec`.
